@@ -63,6 +63,10 @@ THEOREMS = [
     "Ural.Props.C07.fingerprinted_hostname_agrees_model",
     "Ural.Props.C07.bare_hostClass",
     "Ural.Props.C07.bare_hostname_string",
+    "Ural.C07.inferTarget_none",
+    "Ural.Props.C07.infer_bare",
+    "Ural.Props.C07.bare_hostname_agrees_infer",
+    "Ural.Props.C07.bare_hostname_string_infer",
 ]
 TABLE_OBLIGATIONS = [
     "Ural.Props.C07.irrelevant_labels_ascii",
@@ -105,7 +109,7 @@ ASSUMPTIONS = [
     "reading: 'the host of X(u)' is the host the standard parser finds in the result string after a scheme is ensured; when the result has no host at all (the tuple's hostname is empty/None) the helper must return an empty/None host too (None == '')",
     "reading: a URL whose host, as the parser reads it in the cleaned string, begins or ends with whitespace ('http://www.b.com /x', 'http ://x') is outside: the helper's hostname.strip() removes it, normalize_url keeps it; witnessed in Lean (edge_whitespace_witness)",
     "reading: the fingerprint pair is compared with the helper's default infer_redirection=True (fingerprint_url always infers); with False only on URLs carrying no redirection",
-    "reading: bare hostname = no character of '/?#@:[]%' and no control character (surrounding whitespace allowed); the URL functions are applied to the bare string itself (they add the scheme), with infer_redirection off where the option exists",
+    "reading: bare hostname = no character of '/?#@:[]%' and no control character (surrounding whitespace allowed); the URL functions are applied to the bare string itself (they add the scheme); the case stream calls them with infer_redirection off where the option exists — proved not to matter: infer_redirection leaves every bare hostname alone (infer_bare; bare_hostname_agrees_infer, bare_hostname_string_infer cover the default infer_redirection=True)",
     "reading: 'minus the scheme stem when the scheme was stripped' = when the result tuple has an empty scheme",
     "reading: the stems clause is demanded for URLs in which the parser finds a (non-empty) host: lru_stems of a hostless result such as 'custom:/path' (urlunsplit drops '//' for a scheme outside uses_netloc) puts a protocol in front of it and reads 'custom' as the host — that is lru_stems/ensure_protocol on hostless URLs (outside C12's grammar too), not a disagreement between the variant and the URL function; a hostless *result* of a URL with a host ('http://www./x', 'http://com/x' with strip_suffix) is inside",
 ]
